@@ -232,7 +232,11 @@ def lemma_instance(reg, ev, name, args_env, st):
 
 def compile_axioms(reg, ev):
     out = []
-    for name, vars_, body, pats in reg.axioms:
+    for ax in reg.axioms:
+        if ax[0] == 'raw':
+            out += list(ax[2](ev))
+            continue
+        name, vars_, body, pats = ax
         env, zs = {}, []
         for pn, pt in vars_:
             v, z = formal('A_' + pn, pt)
